@@ -34,6 +34,14 @@ AUTO_STD_SPECS = [
      for (t, bits) in (("u16", 16), ("u32", 32), ("u64", 64)) for (k, f) in enumerate(("to_be", "from_be", "to_le", "from_le", "swap_bytes"), 1)]
 
 
+AUTO_PATH_SPECS = [
+    ("std::path::Path::to_str", "(p: &std::path::Path) -> (r: Option<&str>)", ""),
+    ("std::path::Path::exists", "(p: &std::path::Path) -> (r: bool)", ""),
+    ("std::path::Path::is_file", "(p: &std::path::Path) -> (r: bool)", ""),
+    ("std::path::Path::is_dir", "(p: &std::path::Path) -> (r: bool)", ""),
+]
+
+
 class Undecided(Exception):
     """The machinery cannot apply (lost anchor, missing item, unsupported construct).
     Never reported as a violation."""
@@ -1051,9 +1059,13 @@ class Unit:
         # them except congruence), added only where the unit does not specify the function itself. With them an edited body is
         # decided on its merits (a clause that would need the function's meaning fails) instead of being UNDECIDED.
         auto = []
-        for (path, sig, ens) in AUTO_STD_SPECS:
+        specs = list(AUTO_STD_SPECS)
+        if re.search(r"struct\s+\w+\s*\(\s*std::path::Path\s*\)", body):
+            # only where the unit knows the type std::path::Path: queries of the path / of the file system, results not constrained
+            specs += AUTO_PATH_SPECS
+        for (path, sig, ens) in specs:
             if not re.search(r"assume_specification\s*(<[^\[]*>)?\s*\[\s*%s\s*\]" % re.escape(path), body):
-                auto.append("pub assume_specification [%s] %s\n    ensures %s;" % (path, sig, ens))
+                auto.append("pub assume_specification [%s] %s%s;" % (path, sig, ("\n    ensures %s" % ens) if ens else ""))
         if auto:
             body = body + "\n// ---- std functions named by uninterpreted spec functions (all units, only where not specified by the unit) ----\n" + AUTO_STD_DECLS + "\n".join(auto) + "\n"
         feats = "".join("#![feature(%s)]\n" % f for f in self.features)
